@@ -23,7 +23,7 @@ def sh(cmd, timeout=None, env=None, cwd=ROOT):
 
 
 # ---------------------------------------------------------------------------------------------- E1
-def e1(name, src, quick=None, thorough=None, libflags="-O0 -g", deadline=(100, 780), env=None, harness_flags="", require_pids=()):
+def e1(name, src, quick=None, thorough=None, libflags="-O0 -g", deadline=(240, 780), env=None, harness_flags="", require_pids=()):
     return {"kind": "e1", "name": name, "src": src, "libflags": libflags, "args": {"quick": quick or "", "thorough": thorough or ""},
             "deadline": {"quick": deadline[0], "thorough": deadline[1]}, "env": env or {}, "harness_flags": harness_flags, "require_pids": list(require_pids)}
 
@@ -272,7 +272,7 @@ prop("C17", lambda tier: [e1("c17", "harness/c17_bulk.c"), e1("c17m", "harness/c
      "each x all schedules with <= K deviations on 1-2 workers; reference = the sequential loop")
 
 
-def e1wrap(name, src, mode, deadline=(100, 780)):
+def e1wrap(name, src, mode, deadline=(240, 780)):
     return {"kind": "e1", "name": name, "src": src, "libflags": "", "args": {"quick": "", "thorough": ""}, "deadline": {"quick": deadline[0], "thorough": deadline[1]},
             "env": {}, "harness_flags": "", "require_pids": [], "build_cmd": "engine/build_e1_wrap.sh %s %s %s" % (name, src, mode)}
 
@@ -286,7 +286,7 @@ prop("C16", lambda tier: [e1wrap("c16ld", "harness/c16_pthread.c", "ld"), e1wrap
                               "both mechanisms are exercised in statically linked form (objects compiled with MYTH_WRAP_LD + @myth-ld.opts; objects compiled with MYTH_WRAP_DL defining the pthread symbols themselves)"])
 
 
-def fine(name, src, harness_flags="", quickK=1, thoroughK=2, deadline=(90, 700)):
+def fine(name, src, harness_flags="", quickK=1, thoroughK=2, deadline=(240, 700)):
     """E1 in 'every access is a scheduling point' mode (compiler-inserted callbacks, engine/mythmc/fine.c): reaches
     interleavings inside code that carries no explicit hook, e.g. code added by a change"""
     env = {"HARNESS_FLAGS": harness_flags} if harness_flags else {}
